@@ -138,9 +138,14 @@ CLAIMED = {
         "parameter values (names compared with the model, all pairs checked equal-params<->equal-names), random acyclic generator "
         "programs over hash-colliding parameter values (identity, body-run log, names, co-export), both call forms for every value (defaults, omitted "
         "keywords, explicit None), Scalar fields holding Literals that spell a number's name text, enable_cache=False generators whose results "
-        "differ within one design, and nested/enum/Prefixed/Module-valued shapes.",
-        note="md5-of-JSON names (non-scalar shapes, >=128 chars) are not modelled: injectivity there assumes md5 collision freedom and "
-        "json.dumps injectivity; checked pairwise by correspondence only. Recursion (circular generator calls) is rejected by the code "
+        "differ within one design, and nested/enum/Prefixed/Module-valued shapes. The md5-of-JSON form: hashed_encoding_injective over the model of "
+        "hdl21_naming_encoder (NameEnc.lean) — the JSON tree made of a value determines the value, for every declared type whose unions are told "
+        "apart by the kind of JSON they produce; tied to the code by generated shapes (optional fields at falsy values, (Int)Enums, tuples, nested "
+        "param-classes, Prefixed, Generator-/ExternalModule-/Module-valued fields with same-named objects of two Python modules): the tree read "
+        "back from the text the code hashes vs the model's, the module name vs the md5 of the model's tree, all pairs equal-params<->same module<->same name.",
+        note="For md5-of-JSON names the rendering of a tree by json.dumps (injective) and md5 collision freedom are assumed, not modelled; set-valued "
+        "fields are outside the model (checked by programs only); distinct Modules / Generators are assumed to have distinct qualified names (the exporter "
+        "demands it of their modules anyway). Recursion (circular generator calls) is rejected by the code "
         "and not part of the cache model. str()/repr() of numbers trusted injective.",
         ref="DESIGN.md §6 C09",
         technique="Lean 4 proof (parser/round-trip injectivity, cache map lemmas) + differential correspondence",
